@@ -105,7 +105,13 @@ def run():
             x[path[-1]] += 1
         return f
     results["book_order_volume"] = _expect_reject("book_order_volume", "BookTrace", L, i_do, bump(["do", 0, 1, 4]))
-    results["book_entry_key"] = _expect_reject("book_entry_key", "BookTrace", L, i_dk, bump(["dk", 0, 1, 1]), why="impl_keys")
+    # an entry key is an internal: a mismatch is reported as IMPL-DIVERGED (model out of date), never as a violation
+    M = copy.deepcopy(L)
+    bump(["dk", 0, 1, 1])(M[i_dk])
+    _write(os.path.join(d, "book_entry_key.ndjson"), M)
+    r = core.validate_trace("selftest_book_entry_key", "BookTrace", os.path.join(d, "book_entry_key.ndjson"))
+    results["book_entry_key_reported_as_divergence_not_violation"] = bool(r["accepted"] and r["impl_diverged"] and r["impl_diverged"].get("at") == i_dk + 1)
+    log("[selftest] %-34s corrupted event %d -> accepted=%s, IMPL-DIVERGED %s" % ("book_entry_key", i_dk + 1, r["accepted"], r["impl_diverged"]))
     results["book_trade_passive_id"] = _expect_reject("book_trade_passive_id", "BookTrace", L, i_tr, bump(["newtr", 0, 5]))
     results["book_view_bid_volume"] = _expect_reject("book_view_bid_volume", "BookTrace", L, i_do, bump(["views", "bvol"]), why="views")
     et = os.path.join(d, "env.ndjson")
@@ -143,6 +149,11 @@ def run():
     tl, text = core.tlc_check("selftest_impl_f1", "BookImplMC", c, ["INIT Init", "NEXT Next", "CONSTRAINT Constr", "INVARIANT Inv_Refines"], workers=2, timeout=300)
     results["refinement_refutes_pre_repair_keying_with_ties"] = "Inv_Refines is violated" in text
     log("[selftest] BookImplMC with FixTies = FALSE and ties: %s" % ("refuted (finding F1 as a design counterexample)" if results["refinement_refutes_pre_repair_keying_with_ties"] else "NOT refuted"))
+    # ---- 3b. the liveness properties are not vacuous: without the fairness assumption TLC refutes them --------
+    tl, text = core.tlc_check("selftest_unfair", "BookLive", dict(MaxPrice=MAXPRICE, Tick=1, MaxOrders=2, Prices=[10], Vols=[1], Sides=["B", "A"], Kinds=["L"]),
+                              ["SPECIFICATION SpecUnfair", "PROPERTY Progress", "PROPERTY Quiesce"], workers=2, timeout=300)
+    results["liveness_needs_fairness"] = "Temporal properties" in text and "violated" in text
+    log("[selftest] BookLive without fairness: %s" % ("Progress / Quiesce refuted (negative control)" if results["liveness_needs_fairness"] else "NOT refuted"))
     # ---- 4. vacuity: every action of the all-actions generator occurs in the histories actually replayed ----
     from .runner import Check
     from . import props
